@@ -93,6 +93,8 @@ def describe(beh):
                 bits.append("%s->%s" % (ev["c"]["a"], ev["c"].get("ret")))
             elif ev["e"] == "call" and ev["c"]["a"] in ("discover", "filter", "select"):
                 bits.append("%s->%s" % (ev["c"]["a"], json.dumps(ev["c"].get("ret"))))
+    if "cookieLen" in beh:
+        bits.append("issued cookie of %d bytes" % beh["cookieLen"])
     if "hostLen" in beh:
         bits.append("handshake address of %d characters" % beh["hostLen"])
     return " ".join(bits)
@@ -212,6 +214,22 @@ def run(prop, tier):
         slow = [b for b in sel if b["hist"][0]["secret"] == "S" and any(ev["e"] == "tx" and ev["p"].get("k") == "StoreCookie" and ev["p"].get("key") == "auth" for ev in b["hist"][0]["obs"])]
         for b in slow[:2]:
             b["slow"] = True
+        # the size of the issued cookie: a profile with larger properties (skins with signatures) gives cookies of a kilobyte and more,
+        # up to what a vanilla client stores (5120 bytes) and beyond -- whatever was issued is accepted when it comes back
+        def comes_back(b):
+            if len(b["hist"]) != 2 or b["hist"][1]["rc"] != {"age": "within", "ip": "same", "secret": "same"} or b["hist"][0]["secret"] != "S":
+                return False
+            r1 = b["hist"][1]["obs"]
+            return (any(ev["e"] == "rx" and ev["f"].get("which") == "auth" and ev["f"].get("v") == "jar" for ev in r1)
+                    and any(ev["e"] == "tx" and ev["p"].get("k") == "Transfer" for ev in r1) and not any(ev["e"] == "call" and ev["c"]["a"] == "auth" for ev in r1)
+                    and any(ev["e"] == "call" and ev["c"]["a"] == "auth" for ev in b["hist"][0]["obs"]))
+        back = [b for b in behaviours if comes_back(b)]
+        for base in back[:2]:
+            for n in (1024, 2048, 4096, 5093, 5094, 5107, 5119, 5120, 6000, 8192):
+                c = json.loads(json.dumps(base))
+                c["cookieLen"] = n
+                c["why"] = "cookieLen"
+                sel.append(c)
     inp = os.path.join(wd, "behaviours.ndjson")
     outp = os.path.join(wd, "observed.ndjson")
     vlib.write_ndjson(inp, sel)
